@@ -3,7 +3,8 @@
 proof:          lean/MPilot/Props/C07.lean
 correspondence: the ten arithmetic commands, 1-5 inputs, every int/float mix, lattice with zeros/negatives, weights
 oracles:        exact reference definition + documented element type; every input order gives the same outcome;
-                division by zero gives a missing cell; specific errors for shapes / weight counts / empty lists;
+                division by zero gives a missing cell; specific errors for shapes / weight counts / empty lists (a shape error names two shapes
+                that differ, both among the inputs, the first input's first - 3 and more inputs of several shapes in every order);
                 the definitions again on grids of 10^5 .. some 10^6 cells (division: nothing missing, zeros in B)
 """
 import itertools
@@ -78,6 +79,20 @@ def errors(ctx):
         for cmd in ["WeightedSum", "WeightedMean"]:
             checks.append((Case(cmd, {"Weights": [1, 2]}, [x, y]), "MixedArrayShapes"))
             checks.append((Case(cmd, {"Weights": [1, 2, 0.5]}, [x, y, eems.rand_array(rng, (5,), float)]), "MixedArrayShapes"))
+    # three and more inputs of two or three shapes in EVERY order (the odd one first, in the middle, last; the last input of the first one's shape again;
+    # two odd ones of one shape or of two): refused whatever the order, and what the error names are two shapes that do differ (see oracle_shape_report)
+    import random
+    rng3 = random.Random("c07-shape-orders-%s" % ctx.seed)         # (a generator of its own: the cases drawn after these stay what they were under every seed)
+    for shapes in ([(3,), (4,), (3,)], [(3,), (4,), (5,)], [(2, 3), (3, 2), (2, 3), (2, 3)], [(3,), (3, 1), (3,), (1, 3)], [(2, 2), (4,), (4,), (2, 2)], [(2,), (2,), (1, 2), (2,), (2,)]):
+        fields = {sh: eems.rand_array(rng3, sh, rng3.choice([int, float])) for sh in set(shapes)}
+        for order in sorted(set(itertools.permutations(shapes))):
+            if len(set(order[:-1])) < 2 and rng3.random() < 0.5:
+                continue                                        # (the odd one last: the plain case above, kept half of the time)
+            for cmd in ["Sum", "Multiply", "Minimum", "Maximum", "Mean", "WeightedSum", "WeightedMean"]:
+                if len(order) > 4 and rng3.random() < 0.5:
+                    continue
+                ins = [fields[sh].copy() for sh in order]
+                checks.append((Case(cmd, {"Weights": [rng3.choice([1, 2, 0.5]) for _ in ins]} if "Weighted" in cmd else {}, ins), "MixedArrayShapes"))
     for cmd in ["Sum", "Multiply", "Minimum", "Maximum", "Mean"]:
         checks.append((Case(cmd, {}, []), "EmptyInputs"))
     for cmd in ["WeightedSum", "WeightedMean"]:
@@ -85,6 +100,7 @@ def errors(ctx):
         checks.append((Case(cmd, {"Weights": [1]}, [a, a.copy()]), "MismatchedWeights"))
         checks.append((Case(cmd, {"Weights": [1, 2, 3]}, [a, a.copy()]), "MismatchedWeights"))
         checks.append((Case(cmd, {"Weights": []}, []), "EmptyInputs"))
+    report = numeric.oracle_shape_report(ctx)
     for case, want in checks:
         out = eems.run_impl(case)
         ctx.case("err " + case.line(), sample=None)
@@ -94,6 +110,8 @@ def errors(ctx):
             ctx.fail("%s with %s: expected %s, got %s" % (case.cmd, "bad shapes/weights/empty list", want, got), case.describe())
         elif out.get("text") is None:
             ctx.fail("%s: str(%s) raised %s" % (case.cmd, want, out.get("str_error")), case.describe())
+        else:
+            report(case, out, None)
 
 
 def unsigned(ctx):
@@ -232,7 +250,8 @@ def run(ctx):
     model = common.Model()
     orc = numeric.combine(
         numeric.oracle_definition(ctx, reference.ARITH_OPS, "arithmetic", dtype_rule=reference.arith_dtype),
-        numeric.oracle_commutative(ctx, COMMUTATIVE, max_perms=5 if not ctx.thorough else 23))
+        numeric.oracle_commutative(ctx, COMMUTATIVE, max_perms=5 if not ctx.thorough else 23),
+        numeric.oracle_shape_report(ctx))
     eems.run_stream(ctx, model, gen_types(ctx, 3 if not ctx.thorough else 5), "exec:arith:type-mixes", on_result=orc)
     eems.run_stream(ctx, model, gen_pairs(ctx), "exec:arith:pair-lattice", on_result=orc)
     eems.run_stream(ctx, model, gen_random(ctx, eems.ARITH, ctx.budget(20, 800), "valid"), "exec:arith:random", on_result=orc)
